@@ -200,6 +200,11 @@ func (packet *Packet) SetParameters(values []base.BoundValue) (err error) {
 	resultData := make([]byte, len(packet.data[:pos]), len(packet.data))
 	copy(resultData, packet.data[:pos])
 
+	// a NULL parameter is marked in the NULL-bitmap (after the packet header, stmt-id, flags and iteration-count)
+	// only: it has no value, whatever its type is
+	nullBitmap := packet.data[10 : 10+(len(values)+7)>>3]
+	isNull := func(i int) bool { return nullBitmap[i/8]&(1<<(i%8)) > 0 }
+
 	// params amount shift
 	for i := 0; i < len(values); i++ {
 		paramType := packet.data[pos : pos+2]
@@ -214,6 +219,9 @@ func (packet *Packet) SetParameters(values []base.BoundValue) (err error) {
 		// and we need to get result tokenization value to set signed/unsigned byte
 		switch base_mysql.Type(boundType) {
 		case base_mysql.TypeLong, base_mysql.TypeLongLong:
+			if isNull(i) {
+				break
+			}
 			data, err := values[i].GetData(nil)
 			if err != nil {
 				return err
@@ -234,6 +242,9 @@ func (packet *Packet) SetParameters(values []base.BoundValue) (err error) {
 	}
 
 	for i := 0; i < len(values); i++ {
+		if isNull(i) {
+			continue
+		}
 		encoded, err := values[i].Encode()
 		if err != nil {
 			return err
